@@ -256,6 +256,23 @@ func (f *flowFn) pathTransfer(s *flowSrc, ins ssa.Instruction, S *pathState) {
 			S.clear(v)
 			return
 		}
+		// a closure that peels the marks of its argument into a captured accumulator acts as
+		// Unmark on the argument plus an append of the marks to that accumulator
+		if mc, ok := x.Call.Value.(*ssa.MakeClosure); ok {
+			if cf, ok := mc.Fn.(*ssa.Function); ok {
+				if pi, fi, ok := peelSummary(cf); ok && pi < len(x.Call.Args) && fi < len(mc.Bindings) {
+					look(x.Call.Args[pi])
+					S.clear(v)
+					if anyK || anyB {
+						S.setB(v)
+					}
+					if anyK {
+						S.setK(memRoot(mc.Bindings[fi]))
+					}
+					return
+				}
+			}
+		}
 		ci := calleeOf(&x.Call)
 		for _, op := range x.Operands(nil) {
 			if *op != nil {
@@ -1126,4 +1143,92 @@ func alwaysRecordsError(fn *ssa.Function) bool {
 	}
 	recordsErrMemo[fn] = 2
 	return true
+}
+
+// peelSummary: fn is a closure that strips the marks of one cty.Value parameter, puts them into a
+// captured accumulator (appended to, or assigned to, a free variable) and returns the stripped
+// value — a local spelling of `v, m := x.Unmark(); marks = append(marks, m)`. Returns the index
+// of the parameter and of the free variable.
+func peelSummary(fn *ssa.Function) (param int, freeVar int, ok bool) {
+	if fn == nil || fn.Parent() == nil || len(fn.Blocks) == 0 || len(fn.FreeVars) == 0 {
+		return 0, 0, false
+	}
+	for _, b := range fn.Blocks {
+		for _, ins := range b.Instrs {
+			call, isCall := ins.(*ssa.Call)
+			if !isCall || !calleeOf(&call.Call).isCtyValueMethod("Unmark", "UnmarkDeep", "UnmarkDeepWithPaths") || len(call.Call.Args) == 0 {
+				continue
+			}
+			pi := -1
+			for i, p := range fn.Params {
+				if call.Call.Args[0] == ssa.Value(p) {
+					pi = i
+				}
+			}
+			if pi < 0 {
+				continue
+			}
+			var val, marks ssa.Value
+			for _, r := range *call.Referrers() {
+				if ex, isEx := r.(*ssa.Extract); isEx {
+					if ex.Index == 0 {
+						val = ex
+					} else if ex.Index == 1 {
+						marks = ex
+					}
+				}
+			}
+			if val == nil || marks == nil {
+				continue
+			}
+			// every return yields the stripped value
+			rets := 0
+			for _, rb := range fn.Blocks {
+				if r, isRet := rb.Instrs[len(rb.Instrs)-1].(*ssa.Return); isRet {
+					if len(r.Results) != 1 || r.Results[0] != val {
+						return 0, 0, false
+					}
+					rets++
+				}
+			}
+			if rets == 0 {
+				continue
+			}
+			// the marks go into a free variable on the way
+			for fi, fv := range fn.FreeVars {
+				for _, r := range *fv.Referrers() {
+					st, isSt := r.(*ssa.Store)
+					if !isSt || st.Addr != ssa.Value(fv) || !st.Block().Dominates(fn.Blocks[len(fn.Blocks)-1]) && st.Block() != call.Block() {
+						continue
+					}
+					into := false
+					switch v := st.Val.(type) {
+					case *ssa.Extract:
+						into = v == marks
+					case *ssa.Call:
+						if bi, isB := v.Call.Value.(*ssa.Builtin); isB && bi.Name() == "append" && len(v.Call.Args) == 2 {
+							// append(*fv, marks): the varargs slice holds the marks
+							if sl, isSl := v.Call.Args[1].(*ssa.Slice); isSl {
+								if al, isAl := sl.X.(*ssa.Alloc); isAl {
+									for _, r2 := range *al.Referrers() {
+										if ia, isIA := r2.(*ssa.IndexAddr); isIA {
+											for _, r3 := range *ia.Referrers() {
+												if s3, isS := r3.(*ssa.Store); isS && s3.Val == marks {
+													into = true
+												}
+											}
+										}
+									}
+								}
+							}
+						}
+					}
+					if into && st.Block() == call.Block() {
+						return pi, fi, true
+					}
+				}
+			}
+		}
+	}
+	return 0, 0, false
 }
